@@ -73,7 +73,11 @@ def _call(r, key, fn):
 @st.composite
 def st_resize(draw):
     ish = draw(A.shapes(1, 3, 1, 7, 200))
-    osh = [draw(st.integers(1, 8)) for _ in ish]
+    if draw(st.sampled_from([False] * 14 + [True])):
+        # one LONG axis (far beyond the small sizes used elsewhere), optionally next to a short one
+        ish = [draw(st.integers(65, 400))] + ([draw(st.integers(1, 3))] if draw(st.booleans()) else [])
+        ish = list(draw(st.permutations(ish)))
+    osh = [draw(st.integers(1, 8)) if i <= 8 else draw(st.one_of(st.integers(1, 8), st.integers(i - 3, i + 3))) for i in ish]
     # equal shapes with explicit shifts are outside the property's quantifier ("output shapes larger/
     # smaller per axis"): there resize is a plain reshape that ignores the shifts (DESIGN.md section 7)
     explicit = draw(st.integers(0, 3)) == 0 and ish != osh
@@ -236,6 +240,10 @@ def check_circshift(case):
 @st.composite
 def st_downsample(draw):
     sh = draw(A.shapes(1, 4, 1, 7, 300))
+    if draw(st.sampled_from([False] * 14 + [True])):
+        # one LONG axis (far beyond the small sizes used elsewhere), optionally next to a short one
+        sh = [draw(st.integers(65, 400))] + ([draw(st.integers(1, 3))] if draw(st.booleans()) else [])
+        sh = list(draw(st.permutations(sh)))
     k = draw(st.integers(1, len(sh)))
     factors = [draw(st.integers(1, 4)) for _ in range(k)]
     shift = None
